@@ -489,7 +489,22 @@ impl<T> DataReaderEntity<T> {
 
             total_samples_of_instance == self.qos.resource_limits.max_samples_per_instance
         };
-        if is_max_samples_limit_reached {
+        let num_alive_samples_of_instance = self
+            .sample_list
+            .iter()
+            .filter(|cc| {
+                cc.instance_handle == sample.instance_handle && cc.kind == ChangeKind::Alive
+            })
+            .count() as u32;
+        // With KEEP_LAST the new sample replaces the oldest one of the instance, so no
+        // resource limit can be exceeded by storing it
+        let replaces_oldest_sample = matches!(
+            self.qos.history.kind,
+            HistoryQosPolicyKind::KeepLast(depth) if depth == num_alive_samples_of_instance
+        );
+        if replaces_oldest_sample {
+            // Nothing to check
+        } else if is_max_samples_limit_reached {
             return Ok(AddChangeResult::Rejected(
                 sample.instance_handle,
                 SampleRejectedStatusKind::RejectedBySamplesLimit,
@@ -505,25 +520,16 @@ impl<T> DataReaderEntity<T> {
                 SampleRejectedStatusKind::RejectedBySamplesPerInstanceLimit,
             ));
         }
-        let num_alive_samples_of_instance = self
-            .sample_list
-            .iter()
-            .filter(|cc| {
-                cc.instance_handle == sample.instance_handle && cc.kind == ChangeKind::Alive
-            })
-            .count() as u32;
 
-        if let HistoryQosPolicyKind::KeepLast(depth) = self.qos.history.kind {
-            if depth == num_alive_samples_of_instance {
-                let index_sample_to_remove = self
-                    .sample_list
-                    .iter()
-                    .position(|cc| {
-                        cc.instance_handle == sample.instance_handle && cc.kind == ChangeKind::Alive
-                    })
-                    .expect("Samples must exist");
-                self.sample_list.remove(index_sample_to_remove);
-            }
+        if replaces_oldest_sample {
+            let index_sample_to_remove = self
+                .sample_list
+                .iter()
+                .position(|cc| {
+                    cc.instance_handle == sample.instance_handle && cc.kind == ChangeKind::Alive
+                })
+                .expect("Samples must exist");
+            self.sample_list.remove(index_sample_to_remove);
         }
 
         match sample.kind {
